@@ -181,6 +181,30 @@ def enumerated(tier):
     return out
 
 
+def big_rec(i, n):
+    body = b"<%d>" % i
+    fill = bytes(97 + (j * 7 + i) % 26 for j in range(max(0, n - len(body) - 1)))
+    return body + fill + b";"
+
+
+def sized_obstacle_cases(tier):
+    """a REAL obstacle (non-empty directory at the destination of a shift step) in front of archives whose LENGTH is
+    that of a directory entry as file systems report it (4096 on ext4 / xfs, 60 .. 120 on tmpfs): move_file's copy
+    fall-back must fail like for any other length, nothing may be taken for 'already moved'"""
+    out = []
+    sizes = [4096, 60, 80, 100, 120, 40, 4095] if tier != "quick" else [4096, 60, 80]
+    for n in sizes:
+        for c in (2, 3):
+            for gz in (0,):
+                for k in range(1, c):
+                    recs = [big_rec(i, n) for i in range(c + 3)]
+                    pattern, file = PATTERNS[(n + c) % len(PATTERNS)], "app.log"
+                    ops = [[0, r, [0]] for r in recs]
+                    ops[c] = [0, recs[c], [4, k]]          # the window is full by then: every step has a source
+                    out.append(mk(0, c, 0, 0, gz, pattern, file, 1, 0, bystanders(pattern, file), ops))
+    return out
+
+
 def obstacle_cases(tier):
     out = []
     combo = 0
@@ -426,7 +450,7 @@ def corpus():
 
 
 def cases(rng, tier):
-    out = enumerated(tier) + obstacle_cases(tier) + dirobst_cases(tier) + fsize_cases(rng, tier)
+    out = enumerated(tier) + obstacle_cases(tier) + sized_obstacle_cases(tier) + dirobst_cases(tier) + fsize_cases(rng, tier)
     n_rand = 400 if tier == "quick" else 30000
     for _ in range(n_rand):
         out.append(random_case(rng))
